@@ -11,11 +11,113 @@ Independently of the model, the property predicate is evaluated on the implement
 """
 import json
 import math
+import os
 
 from lib import vlib
+from lib.py2coq import Untranslatable
 from lib.vlib import cz, cn, cnat, clist, cpair, cbool
 
 ID = "C17"
+
+# ---------------------------------------------------------------- regeneration of coq/C17/Gen.v
+
+GEN = os.path.join(vlib.COQ, "C17", "Gen.v")
+PYOPS = {"Py_EQ": "OEq", "Py_NE": "ONe", "Py_LT": "OLt", "Py_LE": "OLe", "Py_GT": "OGt", "Py_GE": "OGe"}
+CRELS = {"==": "OEq", "!=": "ONe", "<": "OLt", "<=": "OLe", ">": "OGt", ">=": "OGe"}
+SIGNED_CASTS = {"Py_ssize_t", "ssize_t", "intptr_t", "long", "ptrdiff_t"}
+UNSIGNED_CASTS = {"size_t", "uintptr_t"}
+
+
+def _operand(toks):
+    """[cast] v_cdata|w_cdata  ->  (signed?, side)"""
+    signed = None
+    if len(toks) == 4 and toks[0] == "(" and toks[2] == ")":
+        if toks[1] in SIGNED_CASTS:
+            signed = True
+        elif toks[1] in UNSIGNED_CASTS:
+            signed = False
+        else:
+            raise Untranslatable("cdata_richcompare: cast to %r" % toks[1])
+        toks = toks[3:]
+    if toks == ["v_cdata"]:
+        return signed, "SV"
+    if toks == ["w_cdata"]:
+        return signed, "SW"
+    raise Untranslatable("cdata_richcompare: operand %r" % " ".join(toks))
+
+
+def translate_ptr_branch(repo):
+    from props import c29
+    try:
+        text = c29._strip_comments(open(os.path.join(repo, "src", "c", "_cffi_backend.c")).read())
+    except OSError as e:
+        raise Untranslatable(str(e))
+    try:
+        body = c29._function_body(text, "static PyObject *cdata_richcompare(PyObject *v, PyObject *w, int op)")
+        t = c29._tokens(c29._preprocess(body, set()))
+    except Untranslatable as e:
+        raise Untranslatable(str(e).replace("more_core()", "cdata_richcompare"))
+    head = ["if", "(", "v_is_ptr", "&&", "w_is_ptr", ")", "{"]
+    starts = [i for i in range(len(t)) if t[i:i + len(head)] == head]
+    if len(starts) != 1:
+        raise Untranslatable("cdata_richcompare: `if (v_is_ptr && w_is_ptr) {` not found exactly once")
+    i = starts[0] + len(head)
+    depth, j = 1, i
+    while depth:
+        depth += t[j] == "{"
+        depth -= t[j] == "}"
+        j += 1
+    blk = t[i:j - 1]
+    joined = " ".join(blk)
+    for name, src in (("v_cdata", "v"), ("w_cdata", "w")):
+        decl = "char * %s = ( ( CDataObject * ) %s ) -> c_data ;" % (name, src)
+        if joined.count(decl) != 1:
+            raise Untranslatable("cdata_richcompare: %s is not `char *%s = ((CDataObject *)%s)->c_data`" % (name, name, src))
+        joined = joined.replace(decl, "")
+    rest = joined.replace("int res ;", "").split()
+    # shape B: signed difference handed to Py_RETURN_RICHCOMPARE
+    if rest == "Py_ssize_t diff = v_cdata - w_cdata ; Py_RETURN_RICHCOMPARE ( diff , 0 , op ) ;".split():
+        branch = "PSignedDiff"
+    else:
+        # shape A: switch over op
+        if rest[:5] != ["switch", "(", "op", ")", "{"] or "}" not in rest:
+            raise Untranslatable("cdata_richcompare: pointer branch outside the translated shapes")
+        k = rest.index("}")
+        inner, tail = rest[5:k], rest[k + 1:]
+        if tail != "pyres = res ? Py_True : Py_False ;".split():
+            raise Untranslatable("cdata_richcompare: unexpected statements after the switch: %r" % " ".join(tail))
+        cases, pos = [], 0
+        while pos < len(inner):
+            if inner[pos] == "default":
+                if inner[pos:pos + 7] != ["default", ":", "res", "=", "-", "1", ";"]:
+                    raise Untranslatable("cdata_richcompare: unexpected default case")
+                pos += 7
+                continue
+            if inner[pos] != "case" or inner[pos + 1] not in PYOPS or inner[pos + 2] != ":":
+                raise Untranslatable("cdata_richcompare: unexpected token %r in the switch" % inner[pos])
+            end = inner.index("break", pos)
+            st = inner[pos + 3:end]
+            if st[:3] != ["res", "=", "("] or st[-2:] != [")", ";"] or inner[end + 1] != ";":
+                raise Untranslatable("cdata_richcompare: case %s outside the subset" % inner[pos + 1])
+            expr = st[3:-2]
+            rels = [x for x in range(len(expr)) if expr[x] in CRELS]
+            if len(rels) != 1:
+                raise Untranslatable("cdata_richcompare: case %s: expected one comparison" % inner[pos + 1])
+            (sl, l), (sr, r) = _operand(expr[:rels[0]]), _operand(expr[rels[0] + 1:])
+            if sl != sr:
+                raise Untranslatable("cdata_richcompare: case %s mixes signed and unsigned operands" % inner[pos + 1])
+            cases.append("(%s, {| pc_signed := %s; pc_l := %s; pc_rel := %s; pc_r := %s |})" % (
+                PYOPS[inner[pos + 1]], "true" if sl else "false", l, CRELS[expr[rels[0]]], r))
+            pos = end + 2
+        branch = "PSwitch [ %s ]" % (";\n            ".join(cases))
+    headtext = open(GEN + ".snapshot").read().split("Definition ptr_branch")[0]
+    return headtext + "Definition ptr_branch : pbranch :=\n  %s.\n" % branch
+
+
+def regen(ctx):
+    from props import c35
+    c35.regen_file(ctx, GEN, translate_ptr_branch)
+
 
 PRIM_INT = ["signed char", "short", "int", "long", "long long", "unsigned char", "unsigned short", "unsigned int",
             "unsigned long", "unsigned long long", "int8_t", "uint8_t", "int16_t", "uint16_t", "int32_t", "uint32_t",
@@ -358,6 +460,8 @@ def run(ctx):
         "_Py_HashPointer as in CPython 3.12 (rotate right 4; -1 -> -2); 64-bit pointers compared as unsigned",
         "a primitive cdata whose raw bytes are an invalid _Bool cannot be constructed from Python; the CvErr branch "
         "is exercised through char32_t/wchar_t code points beyond 0x10FFFF instead"]
+    from props import c29
+    c29.settle_obligations(ctx, "C17", GEN, translate_ptr_branch)
     evaluate(ctx, generate(ctx))
 
 
